@@ -43,6 +43,7 @@ PROPS = {
     },
     "C10": {
         "kind": "c10,std",
+        "jl": True,
         "module": "Props.C10",
         "namespace": "Jl.C10",
         "extra_theorem_files": [("Proofs.CastTyped", "Jl.CastTyped")],
